@@ -92,7 +92,9 @@ def run(ctx):
                 "body / filter / local class, one class per pin option and per add option, scripted cluster answer); "
                 "enumerated by TLC: every route x every positional class, every option class alone, against a full valid "
                 "profile and pairwise (thorough: triples over a core of boundary classes on every option-carrying route, add-option pairs, 60000 seeded points of the full "
-                "product), every URL shape x 7 methods x 22 credential situations; the same valid operations through the "
+                "product), POST /add with stream-channels x {ok, parameter rejected while adding, cluster failure at allocate / "
+                "block put / final pin}, every URL shape x 7 methods x 22 credential situations; the same operations (with "
+                "every answer class the API produces: 400 for an option the server rejects, 401, 404, 500, stream-error trailer) through the "
                 "bundled client with 9 credential situations; non-trivial = credentials configured, or at least one "
                 "malformed component, or issued through the client; distinct by abstract request")
     ctx.assumptions = [
